@@ -141,3 +141,72 @@ Section Sched.
     - intros; eapply Hw; right; eassumption.
   Qed.
 End Sched.
+
+(* ---- the shape of C19: every VALUE (an iterator, a builder, a storage, a finished Dawg, a graph) is one
+   location holding its whole state; a mutating operation on value v is a state transformer applied to
+   location v (footprint {v}); a read-only query on v is a function of the state of v (reads {v}, writes
+   nothing).  If every value that is mutated at all is used by ONE goroutine only (its owner), while values
+   nobody mutates may be queried by everybody, the schedule is conflict free — so the theorem above applies:
+   under every interleaving every goroutine gets what it gets alone. *)
+Section Values.
+  Variable S R : Type.
+
+  Definition mut_op (v : loc) (f : S -> S * R) : op S R :=
+    mkOp S R (fun h => (fun l => if l =? v then fst (f (h v)) else h l, snd (f (h v))))
+         (fun l => l =? v) (fun l => l =? v).
+
+  Definition query_op (v : loc) (q : S -> R) : op S R :=
+    mkOp S R (fun h => (h, q (h v))) (fun l => l =? v) (fun _ => false).
+
+  Lemma mut_op_ok : forall v f, op_ok S R (mut_op v f).
+  Proof.
+    intros v f. split.
+    - intros h l W. cbn [mut_op run wr fst] in *. rewrite W. reflexivity.
+    - intros h h' E. cbn [mut_op run wr fst snd].
+      assert (Ev : h v = h' v).
+      { apply E. unfold fp. cbn [mut_op rd wr]. rewrite Nat.eqb_refl. reflexivity. }
+      rewrite Ev. split; [reflexivity|]. intros l W. rewrite W. reflexivity.
+  Qed.
+
+  Lemma query_op_ok : forall v q, op_ok S R (query_op v q).
+  Proof.
+    intros v q. split.
+    - intros h l _. reflexivity.
+    - intros h h' E. cbn [query_op run wr fst snd].
+      assert (Ev : h v = h' v).
+      { apply E. unfold fp. cbn [query_op rd wr]. rewrite Nat.eqb_refl. reflexivity. }
+      rewrite Ev. split; [reflexivity|]. intros l W. discriminate.
+  Qed.
+
+  (* a schedule in the discipline of C19: [owner v = Some g] — value v belongs to goroutine g, which may
+     mutate and query it; [owner v = None] — v is a shared finished value that anybody may query *)
+  Inductive disciplined (owner : loc -> option nat) : nat * op S R -> Prop :=
+  | d_mut : forall g v f, owner v = Some g -> disciplined owner (g, mut_op v f)
+  | d_own_query : forall g v q, owner v = Some g -> disciplined owner (g, query_op v q)
+  | d_shared_query : forall g v q, owner v = None -> disciplined owner (g, query_op v q).
+
+  Lemma disciplined_ok : forall owner s, Forall (disciplined owner) s ->
+    forall j a, In (j, a) s -> op_ok S R a.
+  Proof.
+    intros owner s HF j a Hin. rewrite Forall_forall in HF. specialize (HF _ Hin).
+    inversion HF; subst; [apply mut_op_ok|apply query_op_ok|apply query_op_ok].
+  Qed.
+
+  Lemma disciplined_conflict_free : forall owner s, Forall (disciplined owner) s -> conflict_free S R s.
+  Proof.
+    intros owner s HF i a j b l Ha Hb Hne W. rewrite Forall_forall in HF.
+    pose proof (HF _ Ha) as Da. pose proof (HF _ Hb) as Db.
+    inversion Da; subst; cbn [mut_op query_op wr] in W; try discriminate.
+    apply Nat.eqb_eq in W. subst l.
+    inversion Db; subst; unfold fp; cbn [mut_op query_op rd wr];
+      rewrite ?orb_false_r, ?orb_diag; apply Nat.eqb_neq; intros E; subst; congruence.
+  Qed.
+
+  Theorem values_alone : forall owner s h0 i, Forall (disciplined owner) s ->
+    proj i (snd (exec S R h0 s)) = snd (exec1 S R h0 (proj i s)) /\
+    forall l, tfp S R i s l -> fst (exec S R h0 s) l = fst (exec1 S R h0 (proj i s)) l.
+  Proof.
+    intros owner s h0 i HF.
+    exact (sched_alone S R s h0 i (disciplined_ok owner s HF) (disciplined_conflict_free owner s HF)).
+  Qed.
+End Values.
